@@ -2,11 +2,19 @@ SPECIFICATION Spec
 CONSTANTS
   Mods <- ModsDef
   Deps <- DepsDef
-  Workers <- W2
+  Base <- BaseDef
+  Decls <- DeclsDef
+  Scoped <- ScopedDef
+  NWorkers = {1, 2}
+  MaxW = 2
   Orders <- OrdersDef
   Seeds = {0, 1, 2, 3}
+  KeyModes = {"exact", "base", "decl"}
   Dump = TRUE
 INVARIANT ScheduleIndependent
 INVARIANT NoSharedOutput
+INVARIANT MemoHistoryIndependent
+INVARIANT MemoSound
+INVARIANT MemoPrivate
 INVARIANT Publish
 CHECK_DEADLOCK FALSE
